@@ -8,7 +8,10 @@ CLAIMED = {
  "C05": dict(
   text="Lean 4 theorems over a code-shaped model of XMLUTF8Transcoder (tables regenerated from the source each run): "
        "every Table 3-7 sequence decodes to its code point, nothing else is ever decoded or skipped, encoding is exact, "
-       "decode(encode)=id for all scalar strings, unbounded. Tied to the code by exhaustive/structured correspondence on the real transcoder.",
+       "decode(encode)=id for all scalar strings, unbounded. Tied to the code by exhaustive/structured correspondence on the real transcoder. "
+       "US-ASCII (XMLASCIITranscoder): block semantics incl. the deferred error after 32 characters, and the whole-input stream of repeated "
+       "transcodeFrom calls delivers exactly the legal prefix and raises at the first byte >= 0x80 for every block size (no byte skipped); "
+       "tied by every byte value at every position 0..80 as streams/single calls and by US-ASCII documents around the reader's block boundaries.",
   note="Trusted: Lean kernel + propext/Classical.choice/Quot.sound; Spec (Unicode tables) as transcribed; translator; harness/generators. "
        "UTF-16/UCS-4/single-byte tables/encoding sniffing: see DESIGN status table; ICU encodings not modelled.",
   technique="Lean 4 proof over translator-generated tables + model/implementation correspondence",
@@ -62,7 +65,7 @@ CLAIMED = {
        "step accept (inherit_eq_conjunction), bounds = XSD 4.3 (bounds_spec), derived subset of base (restriction_monotone), list_iff, union_iff; tied by real "
        "schema documents validated in-parse and through the grammar's DatatypeValidator, with model-independent monotonicity and loosening-derivation checks.",
   note="PARTIAL: date/time theorems are *_partial (field level; order theorems for values in normal range with equal zonedness; the 14-hour rule by "
-       "correspondence + witness; durations not modelled). float/double: lexical recogniser + validator/XSValue agreement only. In-parse validation is "
+       "correspondence + witness; xs:duration: Spec (lexical space, (months, seconds), partial order through the four reference dateTimes of XSD 3.2.6.2) and code-shaped model of parseDuration/addDuration/compareResult/compare(strict); compare = common value of the four reference comparisons or INDETERMINATE outside the raw-field shortcut (duration_indeterminate_iff), strict partial order (fractionless), model = Spec kernel-checked on the month-length boundary family and the lexical recogniser on all strings of length <= 4 over the duration alphabet; other durations, fractional seconds and duration facets by correspondence only (3 open duration findings)). float/double: lexical recogniser + validator/XSValue agreement only. In-parse validation is "
        "represented by validator(white-space-normalised string). Facet tier partial: value space abstract (order laws instantiated for decimal and integers/time-line instants); fixed attribute, pattern facet not modelled. Trusted: Lean kernel + "
        "propext/Classical.choice/Quot.sound; Specs as transcribed; translator; harness/generators.",
   technique="Lean 4 proof over translator-generated tables + model/implementation correspondence, Spec-judged on three API routes",
@@ -424,8 +427,11 @@ CLAIMED = {
        "compareBoundaryPoints is the comparison of a document-order linearisation of boundary points; (clone_pure) cloneContents "
        "leaves every existing node record unchanged. Tied to the code by the C13 history protocol extended with view operations: "
        "exhaustive histories of <=2 operations over a prefix with 3 walkers, 2 stepped iterators, 2 lists, 2 ranges, and random "
-       "histories of 150 / 800 operations on the real DOM with EVERY live view dumped after EVERY operation; the code-shaped model "
-       "must agree line by line; a model-independent Python judge checks list contents, iterator successor, walker logical view, "
+       "histories of 150 / 800 operations on the real DOM with EVERY live view dumped after EVERY operation; a third prefix iterator is "
+       "walked to the end and one step back (backward removal fix-up at the end of the root's subtree); a geometry tier runs "
+       "compareBoundaryPoints (4 CompareHow values), setStart and setEnd over ALL 400 ordered pairs of boundary points of the prefix "
+       "trees every run; fixed scenarios cover parentless Text and attribute values; the code-shaped model must agree line by line; "
+       "the judge also reads a sample of whole histories independently of any model; a model-independent Python judge checks list contents, iterator successor, walker logical view, "
        "range validity, 2.12 fix-ups, setters, selectNode, toString, compare and content operations on the implementation's dumps.",
   note="PARTIAL: range_valid_preserved is proved for offset bounds only (same root and start<=end after every operation: full statement "
        "in a comment, checked dynamically after every operation; FALSE for splitText in the code as it is, witness "
@@ -438,7 +444,12 @@ CLAIMED = {
        "selectNode, 97e9b79 toString, 96874bb renameNode invalidates lists, 9e67458 content operations use deleteData); 2 OPEN known "
        "findings that the library's pinned test-suite encodes (Traversal.cpp:534-536 filter consulted for nodes hidden by whatToShow; "
        "RangeTest.cpp:678-813 offsets after insertNode's splitText: a range can start after it ends / span two trees): the "
-       "code-shaped model mirrors them, the judge reports them. Not exercised: content operations on ranges whose root container is "
+       "code-shaped model mirrors them, the judge reports them (an invalid range counts as the known finding only when it had a "
+       "boundary point directly after the split Text node; every other cause has a key of its own). 2 further OPEN findings with "
+       "proposed repairs (fixes/c14_range_splitText_detached_node.diff: splitText of a parentless Text moves boundary points into "
+       "the unlinked new node, range spans two trees; fixes/c14_range_insertNode_checks_before_split.diff: insertNode raises "
+       "HIERARCHY_REQUEST_ERR after having split the text when the parent is an Attr), mirrored by the cfgCode flags "
+       "splitDetachedStays / insertNodeChecksFirst, witnesses split_detached_code_breaks_validity, insertNode_code_raises_after_split. Not exercised: content operations on ranges whose root container is "
        "not Document/DocumentFragment/Attr or whose common ancestor holds an EntityReference; surroundContents with a newParent that "
        "cannot be inserted (the library raises after extracting); insertNode/surroundContents with Comment/PI start container; "
        "selectNode(Contents) of another document's node (no WRONG_DOCUMENT_ERR); getElementsByTagNameNS/getElementById/XPath. "
